@@ -11,7 +11,7 @@
    Its side conditions are the property's quantifier: char-backed kinds
    -128..127, floats without NaN. *)
 From Coq Require Import List ZArith.
-From RtoscV Require Import Ports.SugarModel Ports.SugarProofs Ports.SugarRegress.
+From RtoscV Require Import Ports.SugarModel Ports.SugarProofs Ports.SugarRegress Ports.SugarReplay.
 Import ListNotations.
 Local Open Scope Z_scope.
 
@@ -224,3 +224,84 @@ Theorem C14_history_in_range : forall k e ops st st' outs,
   Forall (fun o => conforming e k (op_args o)) ops -> stored_ok e k st ->
   run k e ops st = Some (st', outs) -> stored_ok e k st'.
 Proof. exact run_inv. Qed.
+
+(* the undo event replays through the port that emitted it.  For every callback
+   kind that emits undo events (rParam, rParamI, rParamF, rOption, rArrayI,
+   rArrayF, rArrayOption, rCOptionCb), every set message of the quantifier and
+   every "/undo_change" among what the callback emitted: the event carries the
+   port's address and both values with the port's own argument type
+   ([event_arg k]), that type is in the port's argument specification
+   ([in_spec]: Ports::dispatch delivers the set-messages an undo history
+   builds from the event to this port), the old-value message dispatched to
+   the port afterwards restores the stored values, the new-value message
+   stores the new value again - from the state before and from the state
+   after.  The stored values stay inside the declared range ([stored_stable]
+   is an invariant), so this holds along any history. *)
+Theorem C14_undo_event_replays : forall k e loc m st args st' outs,
+  undo_kind k -> env_ok e k ->
+  bounds_ordered (kind_key k) (p_min e) (p_max e) -> map_in_range e ->
+  conf e k args -> stored_stable e k st ->
+  step k e loc m st args = Some (st', outs) ->
+  stored_stable e k st' /\
+  forall l a b, In (Reply (mk undo_path [As l; a; b])) outs ->
+    l = loc /\ (exists old new, a = event_arg k old /\ b = event_arg k new) /\
+    in_spec k [a] = true /\ in_spec k [b] = true /\
+    (exists st1 o1, step k e loc m st' [a] = Some (st1, o1) /\ values k st1 = values k st) /\
+    (exists st2 o2, step k e loc m st [b] = Some (st2, o2) /\ values k st2 = values k st') /\
+    (exists st3 o3, step k e loc m st' [b] = Some (st3, o3) /\ values k st3 = values k st').
+Proof. exact step_event_replays. Qed.
+
+Theorem C14_undo_event_replays_nonvacuous :
+  undo_kind KAI /\ env_ok env_arr KAI /\ bounds_ordered (kind_key KAI) (p_min env_arr) (p_max env_arr) /\
+  map_in_range env_arr /\ conf env_arr KAI [Ai 50] /\ stored_stable env_arr KAI [1; 2; 3] /\
+  step KAI env_arr [47; 110; 49] [110; 49] [1; 2; 3] [Ai 50] =
+    Some ([1; 9; 3], [Reply (mk undo_path [As [47; 110; 49]; Ai 2; Ai 9]); Bcast (mk [47; 110; 49] [Ai 9])]) /\
+  step KAI env_arr [47; 110; 49] [110; 49] [1; 9; 3] [Ai 2] =
+    Some ([1; 2; 3], [Reply (mk undo_path [As [47; 110; 49]; Ai 9; Ai 2]); Bcast (mk [47; 110; 49] [Ai 2])]).
+Proof. exact replays_nonvacuous. Qed.
+
+(* rCOptionCb(getcode, setcode), the option callback over a pair of
+   expressions: with a setter that stores what it is given it is rOptionCb on
+   the value of getcode - clamp, undo event, broadcast and symbol translation
+   are those of C14_clamp / C14_undo_iff / C14_broadcast_new /
+   C14_option_symbol - and setcode runs on every set message *)
+Theorem C14_coption_as_option : forall S (get : S -> Z) (set : S -> Z -> S),
+  (forall s v, get (set s v) = v) ->
+  forall e loc s args,
+    rCOptionCb_ get set e loc s args =
+    match rOptionCb e loc (get s) args with
+    | Some (v, o) => Some (match args with [] => s | _ => set s v end, o)
+    | None => None
+    end.
+Proof. exact rCOptionCb_as_option. Qed.
+
+(* the harness port's pair (a field and a counter of setter invocations) *)
+Theorem C14_coption_counted : forall e loc v n args,
+  rCOptionCb_counted e loc [v; n] args =
+  match rOptionCb e loc v args with
+  | Some (v', o) => Some ([v'; match args with [] => n | _ => n + 1 end], o)
+  | None => None
+  end.
+Proof. exact counted_as_option. Qed.
+
+(* observation: the setter's law is needed - the event reports the value handed
+   to setcode, the broadcast the value getcode returns afterwards *)
+Theorem C14_coption_needs_storing_setter :
+  exists (get : Z -> Z) (set : Z -> Z -> Z) e loc s s' o,
+    rCOptionCb_ get set e loc s [Ai 7] = Some (s', o) /\ get s' = 3 /\
+    undo_events o = [Reply (mk undo_path [As loc; Ai 0; Ai 7])].
+Proof. exact coption_needs_storing_setter. Qed.
+
+(* rArrayTCbMember(name, member): the toggle contract of rArrayT on the member
+   of the element the address names; of the flattened struct array (two entries
+   per element) only that member's entry changes *)
+Theorem C14_member_toggle : forall e ds rest arr cur loc a t,
+  p_hash e = true -> digits_ok ds -> starts_nondigit rest ->
+  let i := Z.to_nat (2 * digits_val ds + 1) in
+  nth_error arr i = Some cur -> arg_T a = Some t ->
+  rArrayTCbMember e loc (array_address e ds rest) arr [a] =
+    Some (upd arr i t, if cur =? t then [] else [Bcast (mk loc [a])]) /\
+  frame arr (upd arr i t) i t /\
+  rArrayTCbMember e loc (array_address e ds rest) arr [] =
+    Some (arr, [Reply (mk loc [if cur =? 0 then AFalse else ATrue])]).
+Proof. exact member_toggle. Qed.
